@@ -448,6 +448,11 @@ def _v1_sign():
     return r
 
 
+def _bad_advance():
+    from harness.catalog import BLOCK_A, BLOCK_17, BRO_1
+    return {"command": "advanceBlockchain", "version": 5, "blocks": [BLOCK_A.hex(), BLOCK_17.hex()], "brothers": [[BRO_1.hex()], []]}
+
+
 def requests_catalogue():
     sign = valid_request("sign", 0)
     sign2 = valid_request("sign", 1)
@@ -456,7 +461,8 @@ def requests_catalogue():
             ("advanceBlockchain", adv), ("signerHeartbeat", valid_request("signerHeartbeat")),
             ("getPubKey", valid_request("getPubKey")), ("sign (hash)", sign2),
             ("advanceBlockchain (2 blocks)", valid_request("advanceBlockchain", 1)),
-            ("uiHeartbeat", valid_request("uiHeartbeat")), ("v1 sign", _v1_sign()), ("v1 getPubKey", valid_request("getPubKey", 2, version=1))]
+            ("uiHeartbeat", valid_request("uiHeartbeat")), ("v1 sign", _v1_sign()), ("v1 getPubKey", valid_request("getPubKey", 2, version=1)),
+            ("advanceBlockchain (2nd block lacks its merge-mining fields)", _bad_advance())]
 
 
 CATALOGUE = requests_catalogue()
@@ -469,7 +475,8 @@ CATALOGUE = requests_catalogue()
 #   "tcpslow": the TCP dongle class over a byte-stream transport; the device is slow with one answer.  A blocking read waits;
 #              should the code give the socket a time-out, the late answer stays in the stream - reading it as the answer to
 #              another APDU is counted (world.misrouted) and fails the run
-MODES = {11: "faulty", 12: "faulty", 13: "hb", 14: "v1fault", 15: "fatal", 16: "fatal", 17: "tcpslow"}
+#   "tcphb":   both heartbeat commands on the TCP dongle class (atomic transport)
+MODES = {11: "faulty", 12: "faulty", 13: "hb", 14: "v1fault", 15: "fatal", 16: "fatal", 17: "tcpslow", 18: "tcphb"}
 PAIRS = [(0, 1), (0, 2), (2, 1), (3, 0), (0, 5), (4, 3)]
 TRIPLES = [(0, 1, 2), (3, 0, 4), (0, 5, 2)]
 SETS = PAIRS + TRIPLES + [(0, 1, 2, 3), (2, 5, 4, 0)]                    # 2, 3 and 4 clients
@@ -477,6 +484,8 @@ SETS = SETS + [(1, 6, 1), (6, 1, 4, 1)]      # ("faulty") a state query before a
 SETS = SETS + [(7, 1, 4), (8, 9, 8)]         # ("hb") uiHeartbeat | state | getPubKey ; ("v1fault") v1: sign | getPubKey | sign
 SETS = SETS + [(5, 1), (1, 5, 4)]            # ("fatal") hash sign (fatal) | state [| getPubKey]
 SETS = SETS + [(5, 4, 1)]                    # ("tcpslow") hash sign | getPubKey | state on the TCP dongle
+SETS = SETS + [(3, 7, 3)]                    # ("tcphb") signerHeartbeat | uiHeartbeat | signerHeartbeat on the TCP dongle
+SETS = SETS + [(10, 2, 1)]                   # an advance the manager abandons half way | a good advance | state
 if os.environ.get("VERIF_TIER") == "thorough":
     SETS = SETS + [(2, 0, 3), (1, 2, 5), (0, 0, 1), (0, 0, 0, 0), (3, 2, 1, 0), (0, 1, 2, 3, 4), (0, 1, 2, 3, 4, 5)]    # (equal requests too), 5 and 6 clients
 
@@ -592,7 +601,7 @@ SLOW_AT = 1       # "tcpslow": index (after the bring-up) of the exchange whose 
 
 def device(mode=""):
     d = StatefulDevice(fail_block=1 if mode == "faulty" else None)
-    if mode == "hb":
+    if mode in ("hb", "tcphb"):
         d.mode_after_exit = [4, 3]
     if mode == "fatal":
         d.fatal_on_sign = True
@@ -722,7 +731,7 @@ def _wait_for_strays():
 
 
 def _stack(mode):
-    platform = "tcp" if mode == "tcpslow" else "ledger"
+    platform = "tcp" if mode in ("tcpslow", "tcphb") else "ledger"
     proto, dongle, world = make_stack(device(mode), connect=False, v1=mode == "v1fault", platform=platform)
     world.misrouted = 0
     world.slow = None
@@ -784,7 +793,7 @@ def sequential(order, reqs, mode=""):
     if world.misrouted:
         note("the host read answers that belong to other exchanges", world.misrouted)
         ok = False
-    ok = ok and all(isolated(reqs[i], blocks[i], replies[i], v1=mode == "v1fault", platform="tcp" if mode == "tcpslow" else "ledger")
+    ok = ok and all(isolated(reqs[i], blocks[i], replies[i], v1=mode == "v1fault", platform="tcp" if mode in ("tcpslow", "tcphb") else "ledger")
                     for i in served)
     return apdus, replies, ok
 
